@@ -101,6 +101,8 @@ var c08Shared = map[string]interface{}{
 	"fsi":   func(xs []interface{}) (int, error) { return len(xs), nil },
 }
 
+var c08SharedSrc = map[string]bool{}
+
 var c08Pool = func() []poolEntry {
 	srcs := []string{
 		"1 + 2 * 3", "(a + b) / c % 7", "-x * +y", "~5 & 3 | 8 ^ 2", "10 / 4", "0.1 + 0.2 === 0.3", "1_000 + .5 + 2.e1",
@@ -167,10 +169,19 @@ var c08Pool = func() []poolEntry {
 	}
 	// data objects that are NOT rebuilt for every evaluation: an evaluation that reorders, truncates or
 	// rewrites a caller's slice or map changes what the next evaluation of the same tree sees
+	// an unset Go time in the data is 1 January of year 1 for every time builtin; nothing but now and toDay reads the clock
+	for _, s := range []string{"timeFormat(addDate(unset, 0, 0, 1), '2006-01-02T15:04:05.000000000')", "[year(addDate(unset, 1, 0, 0)), millSecond(addDate(unset, 0, 0, 0)), year(unset), timeFormat(unset, '15:04:05.000000')]",
+		"timeFormat(addDate(date(1, 1, 1), 0, 1, 0), '2006-01-02T15:04:05.000000000')", "timeFormat(useTimezone(unset, 'Asia/Shanghai'), '2006-01-02T15:04:05.000000000') + hour(unset) + weekDay(unset)"} {
+		pool = append(pool, poolEntry{src: s, data: c08With("unset", time.Time{})})
+	}
+	for _, s := range []string{"['a', 'b', true, null]", "[['x', 'y'], 'z', [null, false]]", "z ? ['p', 'q'] : ['r']", "[['k'], [a], ['k']]"} {
+		pool = append(pool, poolEntry{src: s, data: c08Data})
+	}
 	for _, s := range []string{"join(tags, ',') + (includes(tags, 'gamma') ? '!' : '?')", "includes(tags, 'alpha') + join(tags, '-')", "[max(nums...), min(nums...), nums]", "mapToArr(srows, 'k')",
 		"join(mapToArr(srows, 'k'), '+') + len(tags)", "[tags, nums, srows, smap.b + smap.a]", "left(join(tags, ''), 3) + right(join(tags, ''), 2)", "fss(tags) + fsi(nums)",
 		"[log(big), ln(big), log(big), big]", "[abs(neg), floor(neg), -neg, neg]", "max(big, neg) + min(neg, big)"} {
 		pool = append(pool, poolEntry{src: s, data: func() map[string]interface{} { return c08Shared }})
+		c08SharedSrc[s] = true
 	}
 	pool = append(pool, poolEntry{src: "u.name + '|' + u.Name + '|' + u.NAME + '|' + u.nAmE", data: c08With("u", map[string]interface{}{"Name": "alice", "NAME": "bob", "nom": "x"})})
 	for _, s := range []string{"$v = 1, $v", "[$v, $q, $m, $k]", "$nv ?? 'unset'", "$v = a + 1, $v * 2", "$m = 2, $k = 3, [$m, $k]", "this", "[a, s, n]"} {
@@ -397,6 +408,25 @@ func observe(entry, kind int, shared map[string]*formula.SourceCode) (obs string
 			default:
 				obs = showExact(o.val)
 				retained = append(retained, retainedVal{o.val, obs, e.src})
+			}
+			if !o.panicked && o.err == nil && !e.noData && !strings.Contains(e.src, "$") && !c08SharedSrc[e.src] {
+				// the result belongs to its consumer: another evaluation's result, overwritten by ITS
+				// consumer, leaves this one and every later one as they are
+				r3 := formula.NewRunner()
+				r3.SetThis(e.data())
+				if o3 := safeResolve(r3, bg, src.Expression); !o3.panicked && o3.err == nil {
+					scribbleLists(o3.val, "scribbled")
+					if now := showExact(o.val); now != obs {
+						return obs, eng.F("C08/results-share-storage", "%q evaluated twice; writing to the lists of the second result changed the first from %s to %s", e.src, tail200(obs), tail200(now))
+					}
+					r4 := formula.NewRunner()
+					r4.SetThis(e.data())
+					if o4 := safeResolve(r4, bg, src.Expression); !o4.panicked && o4.err == nil {
+						if now := showExact(o4.val); now != obs {
+							return obs, eng.F("C08/results-share-storage", "%q evaluates to %s; after a consumer wrote to the lists of one result, the same tree evaluates to %s", e.src, tail200(obs), tail200(now))
+						}
+					}
+				}
 			}
 			if buf != nil && len(buf) > 0 {
 				// the caller goes on to use its buffer for the next text: the tree parsed from it is a value
